@@ -73,9 +73,9 @@ Print Assumptions c20_reorder_topological.
 
 Example c20_reorder_instance :
   let deps := fun n : string =>
-    if String.eqb n "d" then ["c"; "a"] else if String.eqb n "c" then ["b"]
-    else if String.eqb n "b" then ["a"] else [] in
-  reorder deps 5 ["d"]%string = Some ["a"; "b"; "c"; "d"]%string.
+    (if String.eqb n "d" then ["c"; "a"] else if String.eqb n "c" then ["b"]
+     else if String.eqb n "b" then ["a"] else [])%string in
+  reorder deps 5 ["d"%string] = Some ["a"; "b"; "c"; "d"]%string.
 Proof. vm_compute. reflexivity. Qed.
 
 (* non-vacuity: a declared varchar column reported back identically matches; a different reported
